@@ -229,6 +229,15 @@ func (st *State) havocAll() {
 	st.bumpAlloc()
 }
 
+// havocEverything forgets the whole heap, ghost variables included (cut-point loops).
+func (st *State) havocEverything() {
+	*st.fresh++
+	st.epoch = *st.fresh
+	st.heap = map[string]string{}
+	st.lazyTag = map[string]string{}
+	st.bumpAlloc()
+}
+
 func (st *State) bumpAlloc() {
 	a := st.freshConst("alloc", SInt)
 	st.assume(Le(st.alloc, a))
@@ -364,7 +373,15 @@ func (st *State) compAxiom(name, symbol, sortStr string, alloc Term) {
 // havocGhosts forgets the ghost variables (call of a sod function without contract).
 func (st *State) havocGhosts(names []string) {
 	for _, n := range names {
-		st.compSig["Ghost."+n] = "Int"
+		if _, ok := st.compSig["Ghost."+n]; !ok {
+			sg := "Int"
+			if st.sigOf != nil {
+				if s2, found := st.sigOf("Ghost." + n); found {
+					sg = s2
+				}
+			}
+			st.compSig["Ghost."+n] = sg
+		}
 		st.havocComp("Ghost." + n)
 	}
 }
